@@ -9,7 +9,7 @@
 From Coq Require Import List NArith ZArith.
 From Orda.Model Require Import Base Time Ops List.
 From Coq Require Import Permutation.
-From Orda.Proofs Require Import Permute ListFacts ListConv.
+From Orda.Proofs Require Import OrderFacts Permute Sys ListFacts ListConv ListSys.
 
 Theorem C04_local_insert_readable_at_index : forall s pos v vs i s' o r,
   sized s -> l_validate s (LInsert pos (v :: vs)) = true ->
@@ -62,3 +62,29 @@ Theorem C04_no_duplicates : forall ops,
   exec_ok lstate op l_exec_remote l_ready l_init ops -> NoDup (ids (l_nodes (fold_left l_exec_remote ops l_init))).
 Proof. intros ops H. destruct (exec_ok_invariants ops l_init lgood_nil eq_refl H) as [[G _] _]. exact G. Qed.
 Print Assumptions C04_no_duplicates.
+
+(* At system level (Proofs/ListSys.v; the replicated system of Proofs/Sys.v instantiated with the list: any number of
+   replicas, one server log, generate / push / deliver-in-log-order / skip-own in any interleaving).  In EVERY reachable
+   state, on EVERY replica: no element identifier occurs twice and the size counter is the number of live elements.
+   Executability of the replica's history is not a premise here: it follows from the protocol. *)
+Theorem C04_system_no_duplicates :
+  forall (author : op -> nat) (s : sys op) (r : nat),
+    reachable lstate op tkey loid author l_exec_remote l_ready l_init s ->
+    let st := fold_left l_exec_remote (applied _ (reps _ s r)) l_init in
+    NoDup (ids (l_nodes st)) /\ l_size st = Z.of_nat (length (l_values st)).
+Proof. exact list_sys_no_duplicates. Qed.
+Print Assumptions C04_system_no_duplicates.
+
+(* ... and the same relative order everywhere: take a reachable state in which two replicas have applied the same
+   operations, and any earlier moments of their histories (prefixes l1, l2 of what they have applied): what each held then
+   is a subsequence of one duplicate-free sequence F *)
+Theorem C04_system_same_order :
+  forall (author : op -> nat) (s' : sys op) (r1 r2 : nat) (l1 e1 l2 e2 : list op),
+    reachable lstate op tkey loid author l_exec_remote l_ready l_init s' ->
+    applied _ (reps _ s' r1) = l1 ++ e1 -> applied _ (reps _ s' r2) = l2 ++ e2 ->
+    Permutation (l1 ++ e1) (l2 ++ e2) ->
+    exists F, NoDup F /\
+      sublist (ids (l_nodes (fold_left l_exec_remote l1 l_init))) F /\
+      sublist (ids (l_nodes (fold_left l_exec_remote l2 l_init))) F.
+Proof. exact list_sys_order. Qed.
+Print Assumptions C04_system_same_order.
